@@ -316,6 +316,11 @@ pub fn run_session(ctx: &mut Ctx, t: &mut Tape, mode: Mode) {
                 ctx.count_if(!scr_err, "reparse_valid");
                 let mut continue_after_known = false;
                 let _ = &mut continue_after_known;
+                // a token of the correct tree runs from one included range into the next
+                let token_spans_gap = cur_ranges
+                    .as_ref()
+                    .map(|r| r.windows(2).any(|w| w[0].end_byte < w[1].start_byte && scr_x.leaves().any(|n| n.start < w[0].end_byte && n.end > w[1].start_byte)))
+                    .unwrap_or(false);
                 if !scr_err {
                     ctx.label("reparse:valid");
                     if let Some((i, j, d)) = xtree_diff(&inc_x, &scr_x, EqOpts::FULL) {
@@ -329,11 +334,6 @@ pub fn run_session(ctx: &mut Ctx, t: &mut Tape, mode: Mode) {
                             xtree_diff(&a, &scr_x, EqOpts::FULL).is_none()
                         };
                         let has_empty_range = cur_ranges.as_ref().map(|r| r.iter().any(|x| x.start_byte == x.end_byte)).unwrap_or(false);
-                        // a token of the correct tree runs from one included range into the next
-                        let token_spans_gap = cur_ranges
-                            .as_ref()
-                            .map(|r| r.windows(2).any(|w| w[0].end_byte < w[1].start_byte && scr_x.leaves().any(|n| n.start < w[0].end_byte && n.end > w[1].start_byte)))
-                            .unwrap_or(false);
                         let after_nt_extra = lname == "mini" && pending_edits.iter().zip(pending_texts.iter()).any(|(e, txt)| edit_follows_pragma(txt, e.start));
                         let ends_only = inc_x.len() == scr_x.len() && {
                             let mut a = inc_x.clone();
@@ -391,7 +391,14 @@ pub fn run_session(ctx: &mut Ctx, t: &mut Tape, mode: Mode) {
                     ctx.label("reparse:erroneous");
                     was_erroneous_since_valid = true;
                     if !inc.root_node().has_error() {
-                        let sig = if has_reserved_word_as_word_token(lang, &inc_x, &text.bytes) { "C01:mismatch:reserved_word_reused_as_word_token".to_string() } else { format!("C01:error_not_reported:{lname}") };
+                        let sig = if has_reserved_word_as_word_token(lang, &inc_x, &text.bytes) {
+                            "C01:mismatch:reserved_word_reused_as_word_token".to_string()
+                        } else if token_spans_gap && (ranges_changed || ranges_differ) {
+                            // same defect as in the error-free case: the old token that ended at the range boundary is reused
+                            "C01:mismatch:token_across_changed_included_ranges".to_string()
+                        } else {
+                            format!("C01:error_not_reported:{lname}")
+                        };
                         if ctx.is_known(&sig) {
                             ctx.fail(sig, "");
                             tainted = true;
@@ -551,7 +558,7 @@ impl Check for C01 {
     fn cases(&self, tier: Tier) -> u64 {
         match tier {
             Tier::Quick => 60_000,
-            Tier::Thorough => 400_000,
+            Tier::Thorough => 1_000_000,
         }
     }
     fn tape_len(&self) -> usize {
@@ -579,7 +586,7 @@ impl Check for C04 {
     fn cases(&self, tier: Tier) -> u64 {
         match tier {
             Tier::Quick => 60_000,
-            Tier::Thorough => 400_000,
+            Tier::Thorough => 1_000_000,
         }
     }
     fn langs(&self) -> Vec<&'static str> {
